@@ -9,11 +9,26 @@ from .C13 import *          # noqa: F401,F403
 from .C15 import *          # noqa: F401,F403  (shared scenarios name their oracles there)
 
 
+class _Timeout(BaseException):
+    pass
+
+
+def _alarm(signum, frame):
+    raise _Timeout()
+
+
 def check_reduce(name, op):
+    import signal
+    signal.signal(signal.SIGALRM, _alarm)
+    signal.alarm(30)            # the property says reduce() terminates: 30 s is three orders of magnitude above normal
     try:
         red = op.reduce()
+    except _Timeout:
+        return f'{name}: reduce() did not terminate within 30 s'
     except Exception as e:      # noqa: BLE001
         return f'{name}: reduce() raised {type(e).__name__}: {str(e)[:100]}'
+    finally:
+        signal.alarm(0)
     try:
         if not K.same_structure(red.in_structure(), op.in_structure()) or \
                 not K.same_structure(red.out_structure(), op.out_structure()):
